@@ -6,4 +6,9 @@ cd "$(dirname "$0")"
 /venv/bin/python -c "
 import sys; sys.path.insert(0,'.')
 from harness import setup_gen; setup_gen.main()"
-cd lean && lake build
+cd lean
+lake build SvgVerif
+# every module of the library; a module that no longer builds (because /repo changed) is what
+# the per-property check reports, so it must not fail the set-up
+mods=$(find SvgVerif -name '*.lean' | sed 's/\.lean$//; s#/#.#g' | sort)
+lake build $mods || true
